@@ -399,13 +399,13 @@ theorem legacy_first (cfg : Cfg) (hwf : WellFormed cfg) (hn : Anchored fl cfg.ti
   by_cases hany : (hasListen cfg || hasTime cfg) = true
   · simp only [hany, Bool.not_true, Bool.false_eq_true, if_false]
     -- set-up: only the check-now can end the call (everything parses)
-    have hev : ∀ t, Legacy.eventStage cfg q t call = .ok (if cfg.event.isSome then t.evAdd q else t) := by
+    have hev : ∀ t, Legacy.eventStage fl cfg q t call = .ok (if cfg.event.isSome then t.evAdd q else t) := by
       intro t
       unfold Legacy.eventStage
       cases he : cfg.event with
       | none => rfl
       | some e => have := hwf.1.2; rw [he] at this; simp [this]
-    have hmq : ∀ t, Legacy.mqttStage cfg q t call = .ok (if cfg.mqtt.isSome then t.mqAdd q else t) := by
+    have hmq : ∀ t, Legacy.mqttStage fl cfg q t call = .ok (if cfg.mqtt.isSome then t.mqAdd q else t) := by
       intro t
       unfold Legacy.mqttStage
       cases he : cfg.mqtt with
@@ -707,12 +707,36 @@ theorem Legacy.cleanup_subscribed (cfg : Cfg) (q : Nat) (tb : Tables) (hf : Fres
       erase_append_self] <;>
     (first | (by_cases hb : b = [] <;> by_cases hd : d = [] <;> simp [hb, hd]) | skip)
 
-/-- an MQTT (webhook) filter that does not parse while an event trigger is given: the only leaking exit by exception -/
+theorem Legacy.cleanup_fresh (cfg : Cfg) (q : Nat) (tb : Tables) (hf : Fresh q tb) : Legacy.cleanup cfg q tb = tb := by
+  obtain ⟨a, b, c, d, e, f⟩ := tb
+  obtain ⟨h1, h2, h3⟩ := hf
+  simp only at h1 h2 h3
+  unfold Legacy.cleanup Legacy.stDelIf
+  cases cfg.state.isSome <;> cases cfg.event.isSome <;> cases cfg.mqtt.isSome <;>
+    simp [Tables.stDel, Tables.evDel, Tables.mqDel, h1, h2, h3, List.erase_of_not_mem]
+
+/-- tables when the MQTT filter fails to parse: state and event already registered -/
+theorem Legacy.cleanup_partial (cfg : Cfg) (q : Nat) (tb : Tables) (hf : Fresh q tb) :
+    Legacy.cleanup cfg q (Legacy.stDelIf cfg q
+      (if cfg.event.isSome then (if cfg.state.isSome then tb.stAdd q else tb).evAdd q
+       else (if cfg.state.isSome then tb.stAdd q else tb))) = tb := by
+  obtain ⟨a, b, c, d, e, f⟩ := tb
+  obtain ⟨h1, h2, h3⟩ := hf
+  simp only at h1 h2 h3
+  unfold Legacy.cleanup Legacy.stDelIf
+  cases cfg.state.isSome <;> cases cfg.event.isSome <;> cases cfg.mqtt.isSome <;>
+    simp [Tables.stAdd, Tables.stDel, Tables.evAdd, Tables.evDel, Tables.mqDel, h1, h2, h3, erase_append_self,
+      List.erase_of_not_mem] <;>
+    (first | (by_cases hb : b = [] <;> simp [hb]) | skip)
+
+/-- an MQTT (webhook) filter that does not parse while an event trigger is given: the only exit by exception that
+leaked before a3cf272 -/
 def LeakyParse (cfg : Cfg) : Prop :=
   cfg.event.isSome = true ∧ ∃ m, cfg.mqtt = some m ∧ m.parseOK = false
 
 theorem legacy_cleanup (cfg : Cfg) (q : Nat) (tb : Tables) (v0 call : Nat) (hist : Hist) (hf : Fresh q tb)
-    (hleak : ¬ LeakyParse cfg) (hexit : (Legacy.run fl cfg q tb v0 call hist).1.leavesRunning = false) :
+    (hleak : fl.legacyNoFinally = true → ¬ LeakyParse cfg)
+    (hexit : Legacy.keeps fl (Legacy.run fl cfg q tb v0 call hist).1 = false) :
     (Legacy.run fl cfg q tb v0 call hist).2 = tb := by
   revert hexit
   unfold Legacy.run
@@ -741,6 +765,13 @@ theorem legacy_cleanup (cfg : Cfg) (q : Nat) (tb : Tables) (v0 call : Nat) (hist
       cases cfg.state.isSome with
       | false => rfl
       | true => simp only [if_true]; exact stDel_stAdd tb q hf.1
+    -- a parse error right after the state stage: both shapes give the tables back
+    have herr1 : Legacy.onParseError fl cfg q (if cfg.state.isSome then tb.stAdd q else tb) = tb := by
+      unfold Legacy.onParseError
+      rw [hdel]
+      by_cases hfl : fl.legacyNoFinally = true
+      · simp [hfl]
+      · simp only [hfl, Bool.false_eq_true, if_false]; exact Legacy.cleanup_fresh cfg q tb hf
     unfold Legacy.setup
     rcases hst with ⟨e, he⟩ | hok
     · simp only [he, bind, Except.bind]
@@ -748,11 +779,12 @@ theorem legacy_cleanup (cfg : Cfg) (q : Nat) (tb : Tables) (v0 call : Nat) (hist
     · simp only [hok, bind, Except.bind]
       have hsub := Legacy.cleanup_subscribed cfg q tb hf
       unfold Legacy.subscribed at hsub
-      generalize (if cfg.state.isSome then tb.stAdd q else tb) = t1 at hdel hsub ⊢
+      have hpart := Legacy.cleanup_partial cfg q tb hf
+      generalize (if cfg.state.isSome then tb.stAdd q else tb) = t1 at hdel hsub hpart herr1 ⊢
       unfold Legacy.eventStage
       cases hev : cfg.event with
       | some ev =>
-        rw [hev] at hsub
+        rw [hev] at hsub hpart
         by_cases hp : ev.parseOK = true
         · simp only [hp, Bool.not_true, Bool.false_eq_true, if_false]
           unfold Legacy.mqttStage
@@ -764,10 +796,15 @@ theorem legacy_cleanup (cfg : Cfg) (q : Nat) (tb : Tables) (v0 call : Nat) (hist
               intro hexit
               simp only [hexit, Bool.false_eq_true, if_false]
               simpa using hsub
-            · exfalso
-              apply hleak
-              simp only [Bool.not_eq_true] at hpm
-              exact ⟨by simp [hev], m, hmq, hpm⟩
+            · simp only [Bool.not_eq_true] at hpm
+              simp only [hpm, Bool.not_false, if_true]
+              intro _
+              unfold Legacy.onParseError
+              by_cases hfl : fl.legacyNoFinally = true
+              · exfalso
+                exact hleak hfl ⟨by simp [hev], m, hmq, hpm⟩
+              · simp only [hfl, Bool.false_eq_true, if_false]
+                simpa using hpart
           | none =>
             rw [hmq] at hsub
             simp only
@@ -777,7 +814,7 @@ theorem legacy_cleanup (cfg : Cfg) (q : Nat) (tb : Tables) (v0 call : Nat) (hist
         · simp only [Bool.not_eq_true] at hp
           simp only [hp, Bool.not_false, if_true]
           intro _
-          exact hdel
+          exact herr1
       | none =>
         rw [hev] at hsub
         simp only
@@ -793,7 +830,7 @@ theorem legacy_cleanup (cfg : Cfg) (q : Nat) (tb : Tables) (v0 call : Nat) (hist
           · simp only [Bool.not_eq_true] at hpm
             simp only [hpm, Bool.not_false, if_true]
             intro _
-            exact hdel
+            exact herr1
         | none =>
           rw [hmq] at hsub
           simp only
@@ -1067,7 +1104,7 @@ theorem legacy_run_after (cfg : Cfg) (q : Nat) (tb : Tables) (v0 call : Nat) (hi
   unfold Legacy.run at hne hl ⊢
   by_cases hany : (hasListen cfg || hasTime cfg) = true
   · simp only [hany, Bool.not_true, Bool.false_eq_true, if_false] at hne hl ⊢
-    cases hs : Legacy.setup cfg q tb v0 call with
+    cases hs : Legacy.setup fl cfg q tb v0 call with
     | error r => rfl
     | ok tb1 =>
       simp only [hs] at hne hl ⊢
@@ -1127,7 +1164,7 @@ theorem Legacy.stateStage_ok (cfg : Cfg) (q : Nat) (tb : Tables) (v0 call : Nat)
       simp [hp] at h
 
 theorem Legacy.eventStage_ok (cfg : Cfg) (q : Nat) (tb : Tables) (call : Nat) (t : Tables)
-    (h : Legacy.eventStage cfg q tb call = .ok t) : t = if cfg.event.isSome then tb.evAdd q else tb := by
+    (h : Legacy.eventStage fl cfg q tb call = .ok t) : t = if cfg.event.isSome then tb.evAdd q else tb := by
   unfold Legacy.eventStage at h
   cases he : cfg.event with
   | none => rw [he] at h; simp at h; simp [h]
@@ -1140,7 +1177,7 @@ theorem Legacy.eventStage_ok (cfg : Cfg) (q : Nat) (tb : Tables) (call : Nat) (t
       simp [hp] at h
 
 theorem Legacy.mqttStage_ok (cfg : Cfg) (q : Nat) (tb : Tables) (call : Nat) (t : Tables)
-    (h : Legacy.mqttStage cfg q tb call = .ok t) : t = if cfg.mqtt.isSome then tb.mqAdd q else tb := by
+    (h : Legacy.mqttStage fl cfg q tb call = .ok t) : t = if cfg.mqtt.isSome then tb.mqAdd q else tb := by
   unfold Legacy.mqttStage at h
   cases he : cfg.mqtt with
   | none => rw [he] at h; simp at h; simp [h]
@@ -1153,31 +1190,31 @@ theorem Legacy.mqttStage_ok (cfg : Cfg) (q : Nat) (tb : Tables) (call : Nat) (t 
       simp [hp] at h
 
 theorem Legacy.setup_ok (cfg : Cfg) (q : Nat) (tb : Tables) (v0 call : Nat) (t : Tables)
-    (h : Legacy.setup cfg q tb v0 call = .ok t) : t = Legacy.subscribed cfg q tb := by
+    (h : Legacy.setup fl cfg q tb v0 call = .ok t) : t = Legacy.subscribed cfg q tb := by
   unfold Legacy.setup at h
   cases h1 : Legacy.stateStage cfg q tb v0 call with
   | error r => rw [h1] at h; simp [bind, Except.bind] at h
   | ok t1 =>
     rw [h1] at h
     simp only [bind, Except.bind] at h
-    cases h2 : Legacy.eventStage cfg q t1 call with
+    cases h2 : Legacy.eventStage fl cfg q t1 call with
     | error r => rw [h2] at h; simp at h
     | ok t2 =>
       rw [h2] at h
       simp only at h
       have e1 := Legacy.stateStage_ok cfg q tb v0 call t1 h1
-      have e2 := Legacy.eventStage_ok cfg q t1 call t2 h2
-      have e3 := Legacy.mqttStage_ok cfg q t2 call t h
+      have e2 := Legacy.eventStage_ok fl cfg q t1 call t2 h2
+      have e3 := Legacy.mqttStage_ok fl cfg q t2 call t h
       unfold Legacy.subscribed
       rw [e3, e2, e1]
 
 theorem legacy_cancel_keeps (cfg : Cfg) (q : Nat) (tb : Tables) (v0 call : Nat) (hist : Hist) (t : Nat)
-    (hc : (Legacy.run fl cfg q tb v0 call hist).1 = .cancelled t) :
+    (hflag : fl.legacyNoFinally = true) (hc : (Legacy.run fl cfg q tb v0 call hist).1 = .cancelled t) :
     (Legacy.run fl cfg q tb v0 call hist).2 = Legacy.subscribed cfg q tb := by
   unfold Legacy.run at hc ⊢
   by_cases hany : (hasListen cfg || hasTime cfg) = true
   · simp only [hany, Bool.not_true, Bool.false_eq_true, if_false] at hc ⊢
-    cases hs : Legacy.setup cfg q tb v0 call with
+    cases hs : Legacy.setup fl cfg q tb v0 call with
     | error r =>
       -- the set-up never ends by a cancellation
       exfalso
@@ -1209,7 +1246,7 @@ theorem legacy_cancel_keeps (cfg : Cfg) (q : Nat) (tb : Tables) (v0 call : Nat) 
       | ok t1 =>
         rw [h1] at hs
         simp only [bind, Except.bind] at hs
-        cases h2 : Legacy.eventStage cfg q t1 call with
+        cases h2 : Legacy.eventStage fl cfg q t1 call with
         | error r2 =>
           rw [h2] at hs
           simp only [Except.error.injEq] at hs
@@ -1238,8 +1275,8 @@ theorem legacy_cancel_keeps (cfg : Cfg) (q : Nat) (tb : Tables) (v0 call : Nat) 
     | ok tb1 =>
       rw [hs] at hc
       simp only at hc ⊢
-      simp only [hc, Exit.leavesRunning, if_true]
-      exact Legacy.setup_ok cfg q tb v0 call tb1 hs
+      simp only [hc, Legacy.keeps, hflag, if_true]
+      exact Legacy.setup_ok fl cfg q tb v0 call tb1 hs
   · simp only [Bool.not_eq_true] at hany
     simp only [hany, Bool.not_false, if_true]
     simp only [Bool.or_eq_false_iff] at hany
